@@ -37,9 +37,22 @@ Definition rstrip_nl (s : str) : str := rstrip_chars (N.eqb 10) s.
 
 Definition strip_char (c : N) (s : str) : str := rstrip_chars (N.eqb c) (lstrip_chars (N.eqb c) s).
 
+(* _escape_backslashes: re.sub(r"\\(?=[!-/:-@\[-`{-~]|\Z)", r"\\\\", text) - a backslash followed by ASCII
+   punctuation, or the last character, is doubled *)
+Definition is_ascii_punct (c : N) : bool :=
+  (((33 <=? c) && (c <=? 47)) || ((58 <=? c) && (c <=? 64)) || ((91 <=? c) && (c <=? 96)) || ((123 <=? c) && (c <=? 126)))%N.
+Fixpoint escape_backslashes (s : str) : str :=
+  match s with
+  | [] => []
+  | c :: r =>
+      if (c =? 92)%N && (match r with d :: _ => is_ascii_punct d | [] => true end)
+      then 92%N :: 92%N :: escape_backslashes r
+      else c :: escape_backslashes r
+  end.
+
 (* _normalize_title_quotes *)
 Definition normalize_title_quotes (t : str) : str :=
-  [dq] ++ str_replace [dq] [bsl; dq] t ++ [dq].
+  [dq] ++ str_replace [dq] [bsl; dq] (escape_backslashes t) ++ [dq].
 
 (* re.sub(r"[ \t]+", " ", s): runs of spaces and tabs become one space *)
 Fixpoint collapse_blanks_aux (s : str) (in_run : bool) : str :=
@@ -65,7 +78,10 @@ Fixpoint parens_scan (d : str) (depth : Z) (ok : bool) : Z * bool :=
 Definition parens_balanced (d : str) : bool :=
   let '(depth, ok) := parens_scan d 0%Z true in Z.eqb depth 0 && ok.
 Definition link_destination (d : str) : str :=
-  if is_nil d || existsb is_space d || negb (parens_balanced d) then [60%N] ++ d ++ [62%N] else d.
+  let e := escape_backslashes d in
+  if is_nil d || existsb is_space d || negb (parens_balanced d)
+  then [60%N] ++ str_replace [62%N] [bsl; 62%N] (str_replace [60%N] [bsl; 60%N] e) ++ [62%N]
+  else match e with 60%N :: _ => bsl :: e | _ => e end.
 
 (* _autolink_text: the raw text children as written, else the parsed destination *)
 Definition autolink_text (c : list inl) (dest : str) : str :=
